@@ -548,7 +548,10 @@ def run_reader_p(chunks, max_steps=MAX_DELIVERIES):
                 raise asyncio.CancelledError()
             if "9999" in msg:
                 # exceptions of several classes leave the processing step
-                v = msg["9999"]
+                try:
+                    v = msg["9999"]
+                except Exception:  # noqa: BLE001  (the generated body carried the marker tag itself: it occurs twice)
+                    v = ""
                 if v.startswith("F"):
                     from asyncfix.errors import FIXMessageError
                     raise FIXMessageError("refused by the session layer")
